@@ -329,6 +329,20 @@ def py_mod(a, b):
     return z3.If(b > 0, a % b, -((-a) % (-b)))
 
 
+def _integral_real(t):
+    """syntactic check: a real-sorted term that is an integer (sums/products of to_real(int) and integer numerals)"""
+    t = z3.simplify(t)
+    if z3.is_rational_value(t):
+        return t.denominator_as_long() == 1
+    if z3.is_app(t):
+        k = t.decl().kind()
+        if k == z3.Z3_OP_TO_REAL:
+            return True
+        if k in (z3.Z3_OP_ADD, z3.Z3_OP_SUB, z3.Z3_OP_MUL, z3.Z3_OP_UMINUS):
+            return all(_integral_real(c) for c in t.children())
+    return False
+
+
 def binop(I, op, a, b, inplace=False):
     from . import libdt
     if isinstance(a, Unknown) or isinstance(b, Unknown):
@@ -412,6 +426,11 @@ def binop(I, op, a, b, inplace=False):
             if I.branch(tb == 0):
                 raise PyExc('ZeroDivisionError')
             return Sym(REAL, z3.ToReal(z3.ToInt(ta / tb)))
+        if op is ast.Mod and isinstance(b, (int, float)) and b == 1 and _integral_real(ta):
+            return 0.0
+        if op is ast.Mod and isinstance(b, (int, float)) and b > 0:
+            q = z3.ToReal(z3.ToInt(ta / tb))
+            return Sym(REAL, ta - tb * q)
         if op is ast.Pow and isinstance(b, int) and 0 <= b <= 4:
             r = z3.RealVal(1)
             for _ in range(b):
